@@ -179,3 +179,10 @@ Definition genesis_merkle : list N :=   (* internal byte order *)
 Example genesis_hash : block_hash_display 1 zero32 genesis_merkle 1231006505 486604799 2083236893 =
   [0x00;0x00;0x00;0x00;0x00;0x19;0xd6;0x68;0x9c;0x08;0x5a;0xe1;0x65;0x83;0x1e;0x93;0x4f;0xf7;0x63;0xae;0x46;0xa2;0xa6;0xc1;0x72;0xb3;0xf1;0xb6;0x0a;0x8c;0xe2;0x6f]%N.
 Proof. vm_compute. reflexivity. Qed.
+
+(* first start interrupted between the schema migrations and the genesis transaction: the store is empty; the next
+   start (restart) inserts genesis, i.e. produces exactly the initial store of an uninterrupted first start *)
+Lemma restart_empty gid gpl : restart gid gpl [] = init gid gpl.
+Proof. reflexivity. Qed.
+Lemma first_start_interrupted f gid gpl hs : run_from f (restart gid gpl []) hs = run f gid gpl hs.
+Proof. reflexivity. Qed.
